@@ -126,8 +126,11 @@ CHECKS["C08"] = {
 CHECKS["C09"] = {
     "text": "ONLY the degenerate-start clause of the property: in each of the four solvers the divisor of every residual normalisation passes `if n == 0.0 { n = 1.0 }` "
             "after its definition and before its first use, and before the loop the initial residual (or its identity-preconditioned copy) is tested against tol with "
-            "Ok(0) returned and x untouched — so an exact initial guess and a zero right-hand side with zero guess are accepted with x finite.",
-    "design_ref": "DESIGN.md §3 C09, §7",
+            "Ok(0) returned and x untouched — so an exact initial guess and a zero right-hand side with zero guess are accepted with x finite. "
+            "Two necessary conditions of the convergence clause are decided as well: every failure exit inside the loop is an exact zero test of a recurrence scalar (no absolute "
+            "threshold, which would report breakdown on a small-scale right-hand side), and the residual bookkeeping of C08 (r tracks b - A x, the tested vector is the residual of the "
+            "returned x) holds at the same solvers (imported through the dependency closure).",
+    "design_ref": "DESIGN.md §3 C09, §7, §12",
     "note": "The bulk of C09 — convergence within O(n) iterations on SPD / diagonally dominant systems and agreement with the direct solution to tol*cond(A) — quantifies over values of "
             "Krylov recurrences and is NOT decided (not applicable to static analysis); no claim is made for it.",
     "technique": TECH + "def-guard-use pattern on the norm divisor, sibling start-up agreement (only the degenerate-start clause; convergence is not applicable)",
@@ -179,13 +182,18 @@ CHECKS["C12"] = {
 }
 
 CHECKS["C14"] = {
-    "text": "ONLY the compositional skeleton: sin, cos, sinh, cosh, exp, polar equal their closed forms in real functions of (x, y) (modulo commutativity and sign placement); "
+    "text": "The compositional skeleton: sin, cos, sinh, cosh, exp, polar equal their closed forms in real functions of (x, y) (modulo commutativity and sign placement); "
             "tan, tanh, log_b are the right quotients; the six reciprocal functions are one / partner(self); the six inverse-reciprocal functions are partner_inverse(one / self); "
-            "ln = (ln|z|, arg z), sqrt = sqrt|z|(cos(arg/2), sin(arg/2)), arg = atan2(imag, real) (principal branches inherited from atan2); pow/powf are the expansion of exp(w ln z).",
-    "design_ref": "DESIGN.md §3 C14, §7",
-    "note": "Most of C14 — agreement with the defining series, right-inverse identities, branch ranges of asin/acos/atan and their hyperbolic twins on both sides of each cut, "
-            "behaviour near branch points — is about values of transcendental expressions and is NOT decided (not applicable to static analysis); no claim is made for it.",
-    "technique": TECH + "value numbering of single-path bodies compared with the defining closed forms modulo commutativity and sign placement (compositional skeleton only)",
+            "ln = (ln|z|, arg z), sqrt = sqrt|z|(cos(arg/2), sin(arg/2)), arg = atan2(imag, real) (principal branches inherited from atan2); pow/powf are the expansion of exp(w ln z). "
+            "For the twelve inverse functions the right-inverse identity f(f^-1(z)) = z (1/z for the inverses of the reciprocal functions) is decided as an EXACT identity: the body is "
+            "normalised to c0 + sum c_j ln(u_j) over Q[z,i,s_k]/(i^2+1, s_k^2-r_k) and the forward function is applied through its exponential definition using only exp(ln u) = u, "
+            "exp(i k pi/2) = i^k, sqrt(r)^2 = r (so it holds for every branch choice); and the branch structure of asin, acos, atan, asinh, acosh, atanh equals the standard "
+            "principal-value logarithmic definitions (A&S 4.4.26-31, 4.6.20-25), logarithm arguments and square-root radicands compared as polynomials (sqrt(z-1)sqrt(z+1) is not sqrt(z^2-1)).",
+    "design_ref": "DESIGN.md §3 C14, §7, §12",
+    "note": "Not decided (not applicable to static analysis): agreement with the defining series in floating point, rounding next to branch points, the numerical ranges of Re asin / Re acos as such "
+            "(they follow from the standard logarithmic form, which is what is compared). Trusted: the forward functions are their exponential definitions (primitive-forms/* decide the closed forms), "
+            "ln and sqrt are the principal ones (principal/* decide their provenance from atan2); an inverse function written in a logarithmic form other than the standard one (or the A&S variant of acos) is reported.",
+    "technique": TECH + "value numbering of single-path bodies compared with the defining closed forms; exact polynomial algebra in a quotient ring (Groebner-reduced) for the right-inverse identities and the branch structure",
 }
 CHECKS["C15"] = {
     "text": "For all lengths: the 12 element-wise operator impls have the trait's operator, operand order, co-indexing, full 0..size range and result length; consuming forms "
@@ -201,10 +209,11 @@ CHECKS["C19"] = {
     "text": "For all grids: every access to Mesh2D::vars is a*ny + b with a < nx and b < ny proved from loop ranges or accessor guards; the checked accessors reject out-of-range "
             "nodes and wrong variable counts first; constructors allocate one nvars-vector per node (row-major for 2-D); set stores the argument in the mapped slot and get returns "
             "a clone of the same slot; cross-sections use the right axis, argument positions and full range; var_as_matrix is nx x ny with the flat map; 1-D/2-D trapezium use the "
-            "two end points / four distinct corners of each cell with the right spacings and weight; interpolation is the linear formula on the bracketed cell; the writer's record "
+            "two end points / four distinct corners of each cell with the right spacings and weight; interpolation is the linear formula on the bracketed cell, its snapping windows are "
+            "literals not larger than 1e-6, and at a cell's end nodes it reduces to the stored nodal value using floating-point-exact simplifications only (never (a/b)*b = a); the writer's record "
             "(coordinate + nvars values) matches the reader's stride and field order.",
     "design_ref": "DESIGN.md §3 C19",
-    "note": "Exactness of quadrature/interpolation on (bi)linear data, the printed-precision round trip and the 1e-7 snapping window are numerical and not decided statically. Raw Mesh2D (i,j) indexing is outside the claim.",
+    "note": "Exactness of quadrature/interpolation on (bi)linear data between the nodes and the printed-precision round trip are numerical and not decided statically. Grids are strictly increasing (the property's domain). Raw Mesh2D (i,j) indexing is outside the claim.",
     "technique": TECH + "flat-index map discovery + single-fact bounds proofs, accessor guards, corner-set / stride-agreement patterns",
 }
 
